@@ -6,4 +6,7 @@ export CARGO_NET_OFFLINE=true
 mkdir -p .cache work evidence replays
 ( cd coq && coq_makefile -f _CoqProject -o Makefile >/dev/null && timeout 3000 make -j16 )
 ( cd harness/driver && RUSTFLAGS="--cfg wgsl_to_wgpu_verif" CARGO_TARGET_DIR=/verif/.cache/target cargo build --release --offline )
+# warm the dependency builds of the scratch crates (real wgpu 24.0.5 etc. for `cargo check`, the recording shim)
+head -n 6 harness/driver/testdata/smoke.jsonl > .cache/warm.jsonl
+.cache/target/release/driver batch .cache/warm.jsonl .cache/batch/warm --real --shim >/dev/null 2>&1 || true
 echo setup done
